@@ -138,6 +138,70 @@ let explore_chan p g st0 nw seed runs =
   done;
   if not !found then print_endline "NOTFOUND"
 
+(* ---- model-guided schedules (DESIGN.md 4.3) ----
+   Random walks on the MODEL, biased towards interleaving other threads while some thread sits in
+   one of the windows the proofs split on; the walk is emitted as a "sched list" for the real
+   code (one list entry per model step; the exit step shares the entry of the thread's last plain
+   segment, as in the scheduler).  Windows:
+     w1  the reader commits read_cursor while a writer is between its load of read_cursor and
+         its full check / slot store
+     w2  the reader loads write_cursor while a writer is between its slot store and the publication
+     w3  busy mode: the cached read cursor is refreshed (load of read_cursor)
+     w4  a publication wraps write_cursor to 0 and leaves capacity-2 messages unread
+     w5  a writer publishes while the reader is between its check and its futex sleep *)
+let guide_chan g st0 nw seed target tries =
+  Random.init seed;
+  let n = nw + 1 in
+  let pc st t = (st.c_thr (nat_of_int t)).t_pc in
+  let step st t = cstep sc_params g st (nat_of_int t) O in
+  let usable = let c = int_of_z g.g_cap in if c - 2 > 0 then c - 2 else 0 in
+  let in_window p = (match p with WChk | WPub _ | RWait | WLoadR -> true | _ -> false) in
+  let best = ref ([], []) and found = ref false and k = ref 0 in
+  while not !found && !k < tries do
+    incr k;
+    let st = ref st0 and sched = ref [] and hits = ref [] and steps = ref 0 and last = ref (-1) and live = ref true in
+    let hit w = if not (List.mem w !hits) then hits := w :: !hits in
+    while !live && !steps < 1500 do
+      let en = List.filter (fun t -> step !st t <> None) (upto n) in
+      if en = [] then live := false else begin
+        let pick l = List.nth l (Random.int (List.length l)) in
+        let holders = List.filter (fun t -> in_window (pc !st t)) (upto n) in
+        let others = List.filter (fun t -> not (List.mem t holders)) en in
+        let writers = List.filter (fun t -> t > 0) en in
+        let t =
+          if holders <> [] && others <> [] && Random.int 100 < 70 then pick others
+          else if (target = "w4" || target = "w3") && writers <> [] && Random.int 100 < 75 then pick writers
+          else if target = "w5" && List.mem 0 en && pc !st 0 <> RWait && Random.int 100 < 60 then 0
+          else if List.mem !last en && Random.int 100 < 50 then !last
+          else pick en in
+        (match step !st t with
+         | None -> ()
+         | Some (s', lab) ->
+           let p = pc !st t in
+           let wr_at f = List.exists (fun u -> u > 0 && f (pc !st u)) (upto n) in
+           (match p with
+            | RStoreR -> if wr_at (fun q -> q = WChk) then hit "w1"
+            | RLoadW -> if wr_at (fun q -> match q with WPub _ -> true | _ -> false) then hit "w2"
+            | WLoadR -> if g.g_rm = RBusy then hit "w3"
+            | WPub _ -> if pc !st 0 = RWait then hit "w5"
+            | _ -> ());
+           if List.length s'.c_acc > List.length !st.c_acc && int_of_z s'.c_wcur = 0
+              && List.length s'.c_acc - int_of_nat s'.c_R = usable && usable > 0 then hit "w4";
+           sched := t :: !sched; last := t; incr steps;
+           st := s';
+           (match lab, pc s' t with
+            | LPlain _, (WFin | RFin) ->
+              (match step s' t with Some (s'', _) -> st := s'' | None -> ())
+            | _ -> ()))
+      end
+    done;
+    if List.mem target !hits || (target = "any" && List.length !hits >= 3) then found := true;
+    if List.length !hits >= List.length (snd !best) || !found then best := (List.rev !sched, !hits)
+  done;
+  let (sched, hits) = !best in
+  Printf.printf "sched list - %s\n" (String.concat " " (List.map string_of_int sched));
+  Printf.printf "hits %s\n" (String.concat " " (List.sort compare hits))
+
 let replay_chan p g st0 sched =
   let st = ref st0 in
   List.iter (fun tc ->
@@ -158,12 +222,13 @@ let handle (lines : string list) : unit =
     | x :: rest -> split (x :: acc) rest
     | [] -> (List.rev acc, []) in
   let (cfgl, trace) = split [] lines in
-  let scen = ref [] and prm = ref sc_params and explore = ref None and maxtry = ref 0 and msched = ref None in
+  let scen = ref [] and prm = ref sc_params and explore = ref None and maxtry = ref 0 and msched = ref None and guide = ref None in
   List.iter (fun l -> match words l with
     | ("chan" | "abq" | "dbuf") :: _ as w -> scen := w
     | "params" :: ps -> prm := params_of ps
     | ["maxtry"; n] -> maxtry := int_of_string n
     | ["explore"; sd; runs] -> explore := Some (int_of_string sd, int_of_string runs)
+    | ["guide"; sd; target; tries] -> guide := Some (int_of_string sd, target, int_of_string tries)
     | "modelsched" :: s -> msched := Some s
     | _ -> ()) cfgl;
   match !scen with
@@ -172,6 +237,8 @@ let handle (lines : string list) : unit =
      | None -> print_endline "F badcase"
      | Some (g, st0, nw) ->
        (match !msched, !explore with
+        | _, _ when !guide <> None ->
+          (match !guide with Some (sd, target, tries) -> guide_chan g st0 nw sd target tries | None -> ())
         | Some s, _ -> replay_chan !prm g st0 s
         | None, Some (sd, runs) -> explore_chan !prm g st0 nw sd runs
         | None, None ->
